@@ -22,6 +22,8 @@ CLAIMED = {
             'time-stamps, values and instants, that the concatenated output is monotone and equals the offline robustness of the whole signal'),
     'C06': ('6.C06', 'semantics x monitor kind x io-assignment x predicate x context are enumerated; for each configuration z3 shows equality with the '
             'README_extensions predicate override for all sample values (and all instants in dense time)'),
+    'C07': ('6.C07', 'z3 shows (rho>0 => sat) and (rho<0 => not sat) for all sample values, on whole formulas over predicate atoms and as an inductive step per '
+            'operator with arbitrary operand values/truths; and verdict invariance for every second trace within |rho|; discrete offline/online and dense at symbolic tau'),
 }
 NA = {
     'C14': 'the quantifier ranges over strings and every string is consumed by the ANTLR4 ATN interpreter, which cannot be encoded or '
